@@ -3,6 +3,6 @@
 cd /verif
 ls -d /tmp/seed/C*_out/[0-9] | while read d; do
   p=$(basename $(dirname $d) | sed 's/_out//'); n=$(basename $d)
-  [ -f /verif/seeded/$p-$n/meta.json ] && continue
+  [ -f /verif/seeded/$p-$n/meta.json ] && grep -q '"confirmed": true' /verif/seeded/$p-$n/meta.json && continue
   echo "$p $n"
-done | xargs -P 2 -L 1 sh -c 'python3 /verif/tools/confirm_seed.py $0 $1 2>&1 | tail -1'
+done | xargs -P 3 -L 1 sh -c 'python3 /verif/tools/confirm_seed.py $0 $1 2>&1 | tail -1'
